@@ -170,7 +170,10 @@ class DetNumpyLike(Contract):
 
     def instances(self, tier):
         return [dict(label=k, kind=k)
-                for k in PROGRAMS]
+                for k in PROGRAMS
+                # (hand-written multi-reduction lambdas are not supported by
+                # the NumPy-like target: it refuses them)
+                if k != "multi_reduction_lambda"]
 
     def run(self, h, inst):
         from pytato.target.python import (BoundPythonProgram,
